@@ -1154,6 +1154,175 @@ def suite_concurrent_fault(tier, seed):
     return s
 
 
+# ------------------------------------------------------------------------------------ C06: acknowledgements when a broadcast / announcement task fails
+def suite_ack_with_failing_broadcast(tier, seed, backends=("sql", "kv")):
+    s = Suite("oracle:ack-agrees-despite-failed-broadcast")
+    s.rule = ("EVENT messages through web.start_client while earlier broadcast work FAILS: (a) a notifier whose announcement raises (worker not "
+              "connected / peer gone), (b) an output validator that raises for one marked event while a live subscription matches it; 4-8 further "
+              "valid events, a duplicate and a badly signed one follow; every EVENT gets exactly one OK, OK true <=> the event is stored afterwards, "
+              "OK false => not stored, and later events are not refused because an earlier broadcast failed; SQL and LMDB; non-trivial = a broadcast "
+              "task had failed before a later event was acknowledged")
+    rng = rng_for(seed, "c06bcast")
+
+    class DeadNotifier:
+        def __init__(self):
+            self.calls = 0
+
+        async def notify(self, event):
+            self.calls += 1
+            raise ConnectionResetError("announcement failed (injected by the harness)")
+
+    async def one(backend, mode, n):
+        import falcon
+        from nostr_relay import web
+        from . import relay
+        env.load_config(output_validator=("harness.extra.raise_for_marked" if mode == "validator" else None))
+        env.patch_clock()
+        env.patch_web_sleep()
+        sc = env.Scratch()
+        st = await (env.sql_storage(sc) if backend == "sql" else env.kv_storage(sc))
+        if mode == "notifier":
+            st.notifier = DeadNotifier()
+        try:
+            q = asyncio.Queue()
+            await st.subscribe(env.FakeClient("watch"), "w", [{"kinds": [1]}], q)
+            await env.drain_to_eose(q)
+            evs = [env.mk_event(i % 3, 1, env.NOW - 50 + i, [["t", "marked" if i == 0 else "plain"]], "fb%d %d" % (i, rng.randrange(10 ** 6))) for i in range(n)]
+            bad = dict(env.mk_event(0, 1, env.NOW - 5, [], "badsig"), sig="00" * 64)
+            script = evs[:2] + [evs[0]] + evs[2:] + [bad]
+            sent, inbox = [], asyncio.Queue()
+
+            async def ws_send(text):
+                sent.append(json.loads(text))
+
+            async def ws_recv():
+                item = await inbox.get()
+                if item is None:
+                    raise falcon.WebSocketDisconnected()
+                return item
+
+            async def ws_close(code=1000):
+                sent.append(["CLOSED", code])
+            task = asyncio.create_task(web.start_client(st, ws_send, ws_recv, ws_close, logging.getLogger("verif.fb"), rate_limiter=relay.NullLimiter(),
+                                                        remote_addr="10.3.0.1"))
+            acks = []
+            for e in script:
+                n0 = len(sent)
+                inbox.put_nowait(json.dumps(["EVENT", e]))
+                for _ in range(3000):
+                    await asyncio.sleep(0.002)
+                    if any(f[0] in ("OK", "CLOSED") for f in sent[n0:]) or task.done():
+                        break
+                await env.quiesce(st)
+                oks = [f for f in sent[n0:] if f[0] == "OK"]
+                acks.append({"id": e["id"], "oks": [[f[2], f[3]] for f in oks], "closed": any(f[0] == "CLOSED" for f in sent[n0:]) or task.done()})
+            inbox.put_nowait(None)
+            try:
+                await asyncio.wait_for(task, 10)
+                escaped = None
+            except Exception as ex:      # noqa
+                escaped = repr(ex)
+            stored = set(await env.stored_ids(st))
+            return acks, stored, escaped, [e["id"] for e in script], bad["id"]
+        finally:
+            await env.close(st)
+            sc.close()
+    for backend in backends:
+        for mode in ("notifier", "validator"):
+            for _ in range(1 if tier == "quick" else 5):
+                n = rng.randint(4, 8)
+                acks, stored, escaped, ids, bad_id = env.run(one(backend, mode, n))
+                case = {"backend": backend, "failing": mode, "events": n}
+                s.case(case, nontrivial=True)
+                seen = set()
+                for a in acks:
+                    first = a["id"] not in seen
+                    seen.add(a["id"])
+                    if a["closed"]:
+                        s.violate("handler-exception-escaped", dict(case, at=a), "the connection was closed while an EVENT was handled after a failed broadcast", observed=a)
+                        break
+                    if len(a["oks"]) != 1:
+                        s.violate("ok-count", dict(case, at=a), "an EVENT message got %d OK frames" % len(a["oks"]), observed=a)
+                        break
+                    ok, reason = a["oks"][0]
+                    if a["id"] == bad_id:
+                        if ok or a["id"] in stored:
+                            s.violate("ack:forged-acked", dict(case, at=a), "the badly signed event was acknowledged / stored", observed=a)
+                        continue
+                    if ok is not True and first:
+                        s.violate("ack:valid-event-refused-after-failed-broadcast", dict(case, at=a),
+                                  "a valid new event was answered OK false (%r) - and is %s - after an earlier broadcast / announcement had failed"
+                                  % (reason, "stored all the same" if a["id"] in stored else "not stored"), observed=a)
+                        break
+                    if ok is True and a["id"] not in stored:
+                        s.violate("ack:true-but-not-stored", dict(case, at=a), "OK true but the event is not stored", observed=a)
+                        break
+                    if ok is True and not first:
+                        s.violate("ack:duplicate-acked-true-and-rebroadcast", dict(case, at=a), "a resubmitted event was acknowledged as new", observed=a)
+                        break
+                if escaped:
+                    s.violate("handler-exception-escaped", case, "an exception left the connection handler: " + escaped)
+    return s
+
+
+def raise_for_marked(event, context):
+    """output validator used above: raises for the event tagged t=marked (a validator with a bug / an unreachable service), admits the rest"""
+    if any(len(t) > 1 and t[0] == "t" and t[1] == "marked" for t in event.tags):
+        raise RuntimeError("output validator failed (injected by the harness)")
+    return True
+
+
+# ------------------------------------------------------------------------------------ C06: LMDB shutdown with acknowledged events still queued
+def suite_close_drains_queue(tier, seed):
+    s = Suite("oracle:kv-close-writes-acknowledged-events")
+    s.rule = ("LMDB backend: 3-8 events are acknowledged (OK true) while the harness holds the environment's write lock (so they only queue behind the "
+              "writer thread); the lock is released and the storage closed at once (the relay's shutdown); a new storage on the same directory must "
+              "hold every acknowledged event (by id and by a kinds query); non-trivial = at least two events were still queued at close()")
+    rng = rng_for(seed, "kvclose")
+
+    async def one(n):
+        import lmdb
+        env.load_config()
+        env.patch_clock()
+        env._KV_SEQ[0] += 1
+        import os
+        path = "shim-close-%d-%d" % (os.getpid(), env._KV_SEQ[0])
+        lmdb.wipe(path)
+        st = await env.kv_storage(None, path=path)
+        evs = [env.mk_event(i % 3, 1, env.NOW - 20 + i, [["t", "q"]], "close%d %d" % (i, rng.randrange(10 ** 6))) for i in range(n)]
+        acks = []
+        st.db._wlock.acquire()
+        try:
+            for e in evs:
+                acks.append(await _submit(st, e))
+            queued = st.writer_queue.qsize()
+        finally:
+            st.db._wlock.release()
+        await st.close()
+        st2 = await env.kv_storage(None, path=path)
+        try:
+            found = []
+            for e in evs:
+                g = await st2.get_event(e["id"])
+                found.append(g is not None)
+            got, oc = await env.req(st2, [{"kinds": [1], "#t": ["q"]}])
+            byq = {x.id for x in got}
+        finally:
+            await env.close(st2)
+            lmdb.wipe(path)
+        return acks, found, [e["id"] in byq for e in evs], queued
+    for _ in range(2 if tier == "quick" else 10):
+        n = rng.randint(3, 8)
+        acks, found, byq, queued = env.run(one(n))
+        case = {"events": n, "queued_at_close": queued}
+        s.case(case, nontrivial=queued >= 2)
+        lost = [i for i, (a, f, q2) in enumerate(zip(acks, found, byq)) if a == "true" and not (f and q2)]
+        if lost:
+            s.violate("kv_acked_event_lost_at_close", case, "%d of %d acknowledged events are missing after close() and reopen" % (len(lost), n),
+                      expected="every OK true event stored", observed={"acks": acks, "found_by_id": found, "found_by_query": byq})
+    return s
+
+
 # ------------------------------------------------------------------------------------ C12
 CAP_SCRIPT = r'''
 import sys, json, asyncio, logging
@@ -1873,6 +2042,8 @@ def registry():
         "oracle:idle-timeout-closes-cleanly": suite_idle_timeout,
         "oracle:recipe-whitelist_output_validator": suite_homeserver_output,
         "fault:sql-concurrent-transactions": suite_concurrent_fault,
+        "oracle:ack-agrees-despite-failed-broadcast": suite_ack_with_failing_broadcast,
+        "oracle:kv-close-writes-acknowledged-events": suite_close_drains_queue,
         "oracle:limit-cap-plain-subscribe": suite_cap_plain_subscribe,
         "oracle:announce-every-accepted-event": suite_announce_all_accepted,
         "oracle:removed-unreachable-after-read": suite_removed_unreachable_after_read,
